@@ -10,6 +10,9 @@ TB = ("trusted base: encoding/json/strconv/unicode/utf8/math/big of the building
       "verdict covers only the executions produced (seeded case lists), JIT/native code is observed through results and faults only")
 
 CHECKS = {
+ "C19": dict(level="exploration", design="§4 C19",
+   text="Seeded differential monitoring of every number conversion route (30+ routes per literal: all integer widths, float32/64, json.Number, interface{} under default/UseNumber/UseInt64, string-tagged fields, integer map keys, ast accessors, Interface, Preorder callbacks) against strconv/encoding/json, with math/big-built exact midpoints; formatting of floats/ints byte-for-byte against encoding/json; all 2^32 float32 patterns in the thorough tier (exhaustive for float32 formatting and shortest-text decoding). jit/optdec/vm/sse configurations each get a share.",
+   technique="runtime differential monitor vs strconv/encoding/json; exhaustive float32 bit-pattern sweep (thorough); seeded boundary/midpoint literals"),
  "C20": dict(level="exploration", design="§4 C20",
    text="Seeded + enumerated differential monitoring of the real string routines (Quote, unquote, HTMLEscape, utf8.*, and the same routines reached through Marshal/Unmarshal) against reference definitions, at every length 0..L x position x special byte group, rotating alignments and destination capacities, on both SIMD tables. Held-on-observed, not a proof.",
    technique="runtime differential monitor against reference definitions; exhaustive length x position sweep + seeded random strings; both SIMD tables"),
